@@ -151,7 +151,7 @@ pub fn run(reg: &dyn Registry, ctx: &Ctx) -> Outcome {
                         // equal to it; equal generators must have identical futures
                         if info.has_eq && info.linear_bits.is_some() && off == 0 {
                             if let Some(img) = g.ser() {
-                                if img.iter().any(|&b| b != 0) {
+                                if img.len() == info.seed_len && img.iter().any(|&b| b != 0) {
                                     let mut fresh = ty.from_seed(&img);
                                     if fresh.eq_dyn(g.as_ref()) == Some(true) {
                                         let mut old = g.clone_box();
@@ -488,6 +488,11 @@ pub fn run(reg: &dyn Registry, ctx: &Ctx) -> Outcome {
     let _ = Family::Core;
     // every `==` evaluated above was accompanied by `!=`: they must be negations of each other
     {
+        let np = reg.eq_panics();
+        ctx.set("eq_panics", np);
+        if np > 0 {
+            ctx.violation("C10:eq-panicked", &format!("{} comparisons with == / != panicked inside the crate", np), json!({"kind":"note","count":np}));
+        }
         let n = reg.eq_ne_inconsistencies();
         ctx.set("eq_ne_inconsistencies", n);
         if n > 0 {
